@@ -192,3 +192,56 @@ def split_range(n: int, k: int) -> list[tuple[int, int]]:
         out.append((a, b))
         a = b
     return out
+
+
+class CaseTimeout(BaseException):
+    """Raised inside a case by the watchdog (a single case never needs more than seconds)."""
+
+
+class time_limit:
+    """with time_limit(30): ...  -> raises CaseTimeout in the main thread of the worker after 30 s wall."""
+
+    def __init__(self, seconds: float):
+        self.seconds = seconds
+        self._old = None
+        self._armed = False
+
+    def __enter__(self):
+        import signal
+        import threading
+
+        if threading.current_thread() is threading.main_thread() and hasattr(signal, "setitimer"):
+            def _h(signum, frame):
+                raise CaseTimeout()
+
+            self._old = signal.signal(signal.SIGALRM, _h)
+            signal.setitimer(signal.ITIMER_REAL, self.seconds)
+            self._armed = True
+        return self
+
+    def __exit__(self, *a):
+        import signal
+
+        if self._armed:
+            signal.setitimer(signal.ITIMER_REAL, 0)
+            signal.signal(signal.SIGALRM, self._old)
+        return False
+
+
+CASE_LIMIT_S = float(os.environ.get("VERIF_CASE_LIMIT_S", "20"))
+
+_timeouts_seen = 0
+
+
+def guarded(fn, *args):
+    """Run fn(*args) under the per-case watchdog. Returns (result, timed_out).
+    After 3 timeouts in one process the limit drops to 2 s so that a tree that hangs on a
+    whole class of cases still finishes (violations are already recorded by then)."""
+    global _timeouts_seen
+    limit = CASE_LIMIT_S if _timeouts_seen < 3 else min(2.0, CASE_LIMIT_S)
+    try:
+        with time_limit(limit):
+            return fn(*args), False
+    except CaseTimeout:
+        _timeouts_seen += 1
+        return None, True
